@@ -90,6 +90,9 @@ CASES: List[Tuple[str, bool, str, str]] = [
     ("foreign-attribute-is-not-a-rename", False,
      "import os\nclass A:\n    def f(self, p, d):\n        r = os.path.realpath(p)\n        return r.startswith(os.path.realpath(d) + os.sep)\n",
      "import os\nclass A:\n    def f(self, p, d):\n        r = os.path.abspath(p)\n        return r.startswith(os.path.abspath(d) + os.sep)\n"),
+    ("comprehension-variable-is-local-to-it", False,
+     "def f(d, p):\n    (a, w) = p\n    widths = {k: w for (k, (w, _)) in d.items()}\n    return widths, w\n",
+     "def f(d, p):\n    (a, w) = p\n    widths = {}\n    for k, (w, _) in d.items():\n        widths[k] = w\n    return widths, w\n"),
     ("copy-dropped", False,
      "def f(name, diff):\n    t = tab.get(name)\n    if diff:\n        t = t.copy()\n        t[0] = diff\n    return t\n",
      "def f(name, diff):\n    t = tab.get(name)\n    if diff:\n        t[0] = diff\n    return t\n"),
